@@ -246,10 +246,10 @@ def bnode(c):
 class SymInt(object):
     """python int as IR node.  unsigned (lo >= 0): value == node, width == bit_length(hi);
     signed (lo < 0): two's complement at node width."""
-    __slots__ = ('n', 'lo', 'hi', 'lin')
+    __slots__ = ('n', 'lo', 'hi', 'lin', 'tag')
 
-    def __init__(self, n, lo, hi, lin=None):
-        self.n, self.lo, self.hi, self.lin = n, lo, hi, lin
+    def __init__(self, n, lo, hi, lin=None, tag=None):
+        self.n, self.lo, self.hi, self.lin, self.tag = n, lo, hi, lin, tag
 
     @property
     def w(self):
@@ -384,9 +384,16 @@ class SymInt(object):
     def __int__(self): return concretize(self)
 
     def bit_length(self):
+        """symbolic bit length (no forking): an ite-chain value tagged with the node it measures, so that the idiom
+        x & ((1 << x.bit_length()) - 1) - which is x - is recognised (Bits(int) sizes itself that way)"""
         if self.lo < 0:
             raise Leak('bit_length of maybe-negative symbolic')
-        return concretize_bitlen(self)
+        r = 0
+        for k in range(1, self.w + 1):
+            r = ite(self >= (1 << (k - 1)), k, r)
+        if isinstance(r, SymInt):
+            r = SymInt(r.n, r.lo, r.hi, None, ('bitlen', self.n.id))
+        return r
 
     def to_bytes(self, *a, **k):
         raise Leak('int.to_bytes of symbolic')
@@ -406,6 +413,7 @@ class _Const(SymInt):
         self.lo = self.hi = v
         self.n = None
         self.lin = None
+        self.tag = None
 
     @property
     def w(self):
@@ -491,6 +499,15 @@ def _sub(a, b):
     if _isc(a) and _isc(b):
         return a.v - b.v
     if _isc(b) and b.v == 0: return a
+    if _isc(b) and b.v == 1 and a.tag is not None and a.tag[0] == 'pow2bl':
+        r = _sub_plain(a, b)
+        if isinstance(r, SymInt):
+            r = SymInt(r.n, r.lo, r.hi, r.lin, ('mask', a.tag[1]))
+        return r
+    return _sub_plain(a, b)
+
+
+def _sub_plain(a, b):
     lo, hi = a.lo - b.hi, a.hi - b.lo
     lc = _lin_comb(a, b, -1)
     if lc is not None:
@@ -523,6 +540,12 @@ def _mul(a, b):
 
 
 def _bw(kind, a, b):
+    if kind == 'and' and not _isc(a) and not _isc(b):
+        # x & ((1 << bitlen(x)) - 1) == x
+        if b.tag is not None and b.tag == ('mask', a.n.id):
+            return a
+        if a.tag is not None and a.tag == ('mask', b.n.id):
+            return b
     if _isc(a) and _isc(b):
         return {'and': a.v & b.v, 'or': a.v | b.v, 'xor': a.v ^ b.v}[kind]
     if _isc(a):
@@ -577,6 +600,8 @@ def _shl(a, n):
     r = a << hi if not _isc(a) else a.v << hi
     for k in range(hi - 1, lo - 1, -1):
         r = ite(n == k, (a << k) if not _isc(a) else (a.v << k), r)
+    if _isc(a) and a.v == 1 and n.tag is not None and n.tag[0] == 'bitlen' and isinstance(r, SymInt):
+        r = SymInt(r.n, r.lo, r.hi, None, ('pow2bl', n.tag[1]))
     return r
 
 
@@ -1159,6 +1184,10 @@ def _select(a, i):
             raise IndexError('index out of range')
     lo, hi = max(i.lo, -n), min(i.hi, n - 1)
     vals = [(k, a[k]) for k in range(lo, hi + 1)]
+    if lo == 0 and hi == n - 1 and n >= 4 and n & (n - 1) == 0 and all(type(v) is builtins.int and v >= 0 for _, v in vals):
+        r = _linear_select([v for _, v in vals], i)
+        if r is not None:
+            return r
     if all(isinstance(v, (builtins.int, SymInt)) and not isinstance(v, bool) for _, v in vals):
         r = vals[-1][1]
         for k, v in reversed(vals[:-1]):
@@ -1166,11 +1195,38 @@ def _select(a, i):
         return r
     B = _bits_cls()
     if B is not None and all(isinstance(v, B) for _, v in vals) and len(set(v.size for _, v in vals)) == 1:
+        if lo == 0 and hi == n - 1 and n >= 4 and n & (n - 1) == 0 and all(type(v.ival) is builtins.int for _, v in vals):
+            r = _linear_select([v.ival for _, v in vals], i)
+            if r is not None:
+                return B(r, vals[0][1].size)
         r = vals[-1][1].ival
         for k, v in reversed(vals[:-1]):
             r = ite(i == k, v.ival, r)
         return B(r, vals[0][1].size)
     return a[concretize(i)]
+
+
+def _linear_select(tab, i):
+    """table lookup with a symbolic index into a table of constants that is affine over GF(2) in the index bits
+    (T[i] = T[0] ^ xor_j i_j*(T[2^j]^T[0]), CHECKED here for every entry): emitted as xor of wired constants, no mux chain"""
+    n = len(tab)
+    k = n.bit_length() - 1
+    t0 = tab[0]
+    basis = [tab[1 << j] ^ t0 for j in range(k)]
+    for x in range(n):
+        v = t0
+        for j in range(k):
+            if (x >> j) & 1:
+                v ^= basis[j]
+        if v != tab[x]:
+            return None
+    w = max(1, max(tab).bit_length())
+    node = ir.const(w, t0)
+    idx = to_n(i, k)
+    for j in range(k):
+        if basis[j]:
+            node = ir.bitop('xor', node, ir.mask_by_bit(ir.slc(idx, j, 1), basis[j], w))
+    return SymInt.mk(node, 0, (1 << w) - 1)
 
 
 def sx_setitem(a, i, v):
@@ -1320,6 +1376,13 @@ def merge(c, a, b):
     return ite(c, a, b)
 
 
+def sx_maybe_pos(v):
+    "v > 0, except that a symbolic non-negative v answers True without forking (see loader._bits_init_size)"
+    if isinstance(v, SymInt) and v.lo >= 0:
+        return True
+    return v > 0
+
+
 def sx_ite(test, fa, fb):
     "if-converted `if test: x = fa() else: x = fb()`"
     c = truth(test)
@@ -1331,4 +1394,4 @@ def sx_ite(test, fa, fb):
 SHIMS = dict(isinstance=sx_isinstance, int=sx_int, bytes=sx_bytes, bytearray=sx_bytearray,
              abs=sx_abs, min=sx_min, max=sx_max, sum=sx_sum, divmod=sx_divmod, range=sx_range,
              hex=sx_hex, bin=sx_bin, chr=sx_chr, ord=sx_ord, float=sx_float,
-             __sx_getitem__=sx_getitem, __sx_setitem__=sx_setitem, __sx_join__=sx_join, __sx_ite__=sx_ite)
+             __sx_getitem__=sx_getitem, __sx_setitem__=sx_setitem, __sx_join__=sx_join, __sx_ite__=sx_ite, __sx_maybe_pos__=sx_maybe_pos)
